@@ -270,7 +270,6 @@ package statebackend
 //@   logged as RootIfRetained
 //@ extern func github.com/NethermindEth/juno/core/deprecatedstate.NewHistory
 //@   logged as LegacyHistory
-//@ extern func github.com/NethermindEth/juno/core/deprecatedstate.New
 //@ extern func github.com/NethermindEth/juno/core/state.NewStateHistory
 //@   logged as NewStateHistory
 //@ extern func github.com/NethermindEth/juno/core/state.NewStateReader
